@@ -6,7 +6,8 @@ namespace TM.Driver.C03
 open TM TM.World
 
 def nChains : Nat := 3          -- real chains 0,1,2; chain 3 is a name without client
-def nAcct : Nat := 13   -- … 10 = the forwarder (batching) contract, 11 = the log emitter, 12 = the callback switch contract
+def nAcct : Nat := 21   -- 13 … 20 = module accounts of the app (blocked for the native coin)
+-- (was 13)   -- … 10 = the forwarder (batching) contract, 11 = the log emitter, 12 = the callback switch contract
 --         -- 0 user, 1 endpoint, 2 packet, 3 agent, 4 execute, 5 relayer, 6 7 receivers, 8 9 further senders
 def userNative : Nat := 100000000000000
 
@@ -51,7 +52,8 @@ def dump (st0 : St) (i : Nat) : String :=
   let seqsTo (d : Nat) : List Nat := st.seen i d
   let seqsFrom (s : Nat) : List Nat := if s < nChains then st.seen s i else []
   let bals := toks.flatMap fun t => accts.filterMap fun a =>
-    if e.bal t a = 0 then none else some (kv ("b:" ++ toString t ++ "." ++ toString a) (e.bal t a))
+    -- (the native balances of the module accounts 13.. move with every block: not part of the dump)
+    if e.bal t a = 0 ∨ (t = 0 ∧ 13 ≤ a) then none else some (kv ("b:" ++ toString t ++ "." ++ toString a) (e.bal t a))
   let alws := toks.flatMap fun t => [3, 8, 9, 10].filterMap fun a =>
     if t = 0 ∨ e.allow t a = 0 then none else some (kv ("l:" ++ toString t ++ "." ++ toString a) (e.allow t a))
   let sups := toks.filterMap fun t => if t = 0 ∨ e.supply t = 0 then none else some (kv ("s:" ++ toString t) (e.supply t))
@@ -154,7 +156,7 @@ def step0 (st : St) (line : String) : St × String :=
   | ["transfer", c, t, a, b, n] =>
     match nats [c, t, a, b, n] with
     | some [c, t, a, b, n] =>
-      let ok := (debit (st.w.chains c).evm t a n).isSome && a != acEndpoint && a != acPacket
+      let ok := (debit (st.w.chains c).evm t a n).isSome && a != acEndpoint && a != acPacket && !(t == 0 && blocked b)
       let st := { st with w := World.step st.fixed st.w (.transfer c t a b n) }
       (st, (if ok then "ok " else "err ") ++ dump st c)
     | _ => (st, "bad-op")
